@@ -585,9 +585,14 @@ class RTCRtpReceiver:
                         )
                     )
 
-                if self.__rtcp_ssrc is not None and reports:
-                    packet = RtcpRrPacket(ssrc=self.__rtcp_ssrc, reports=reports)
-                    await self._send_rtcp(packet)
+                if self.__rtcp_ssrc is not None:
+                    # a receiver report holds at most 31 report blocks
+                    # (5-bit count, RFC 3550 6.4.2)
+                    for start in range(0, len(reports), 31):
+                        packet = RtcpRrPacket(
+                            ssrc=self.__rtcp_ssrc, reports=reports[start : start + 31]
+                        )
+                        await self._send_rtcp(packet)
 
         except asyncio.CancelledError:
             pass
